@@ -172,7 +172,11 @@ Outputs(lazy) ==
        \cup {C("flow_mod/output/" \o c,
                [Build("P", DefShape("flow_mod")) EXCEPT !.f.actions =
                   <<SV("a_output", [port |-> CtrlPort, max_len |-> Pat(c, 2, 1)]),
-                    SV("a_output", [port |-> Pat(c, 2, 2), max_len |-> <<0, 0>>])>>]) : c \in Classes})
+                    SV("a_output", [port |-> Pat(c, 2, 2), max_len |-> <<0, 0>>]),
+                    SV("a_output", [port |-> <<0, 1>>, max_len |-> Pat(c, 2, 1)])>>]) : c \in Classes}
+       \* the constructor's default max_len (0xffff) with an ordinary port: pack() sends 0 (NormalizeMaxLen)
+       \cup {C("actions/output-default/" \o c, SV("actions", [actions |-> <<SV("a_output", [port |-> Pat(c, 2, 2), max_len |-> <<255, 255>>])>>])) :
+               c \in Classes})
 
 \* payload lengths
 RestKinds == {"error", "echo_request", "echo_reply", "vendor", "packet_in", "packet_out", "sreq_vendor", "srep_vendor"}
@@ -382,6 +386,73 @@ NXModified(lazy) ==
     Mod("nxa_learn/mod/priority", le, <<SetF("priority", <<0, 1>>)>>),
     Mod("nx_role_request/mod/role", Build("Z", S0("nx_role_request")), <<SetF("role", <<0, 0, 0, 2>>)>>),
     Mod("nxa_set_tunnel/mod/tun_id", Build("Z", S0("nxa_set_tunnel")), <<SetF("tun_id", <<0, 0, 0, 2>>)>>) })
+
+(* ---- encodings received from a peer (Receive) ------------------------------- *)
+(* Wire-legal bytes the library's own encoder never produces.  keep = TRUE: the  *)
+(* library claims to preserve the encoding (re-encoding must reproduce it);     *)
+(* keep = FALSE: it canonicalises on purpose (the re-encoding is the canonical  *)
+(* image and must decode to the same object).                                   *)
+R(tag, k, w, keep) == [tag |-> tag, k |-> k, wire |-> w, keep |-> keep]
+RW(tag, sv) == R(tag, sv.k, Wire(sv), TRUE)
+GoodR(S) == {r \in S : LET d == DecTop(r.k, r.wire, 1, 1 + Len(r.wire)) IN
+                         d.ok /\ WF(RecvCanon(d.v)) /\ Receivable(RecvCanon(d.v))}
+\* fields nicira.py has no name for (always the same width: the library learns a class per header)
+U1 == <<57005, 66, 4>>
+U2 == <<2, 5, 6>>
+U3 == <<32767, 127, 1>>
+Unknowns == {U1, U2, U3}
+MaskableFields == {x \in NxmFields : <<x[1], x[2]>> \in NxmMaskable}
+PeerEntries(lazy) ==
+  {Nxm(t, Pat(c, t[3], 2), Fill(t[3], 255)) : t \in MaskableFields, c \in {"Z", "M", "P"}}       \* explicit all-ones mask
+  \cup {Nxm(t, Zeros(t[3]), Zeros(t[3])) : t \in MaskableFields}                                   \* explicit all-zero mask
+  \cup {Nxm(u, Pat(c, u[3], 2), <<>>) : u \in Unknowns, c \in {"M", "P"}}
+  \cup {Nxm(u, AndBytes(Pat("P", u[3], 2), MaskPat(m, u[3])), MaskPat(m, u[3])) : u \in Unknowns, m \in {"H", "N", "0"}}
+  \cup {Nxm(u, Pat("P", u[3], 2), Fill(u[3], 255)) : u \in Unknowns}
+PeerMix == <<Nxm(<<0, 0, 2>>, <<0, 7>>, <<>>), Nxm(<<0, 7, 4>>, <<10, 1, 2, 3>>, Fill(4, 255)),
+             Nxm(U1, <<1, 2, 3, 0>>, <<255, 255, 255, 0>>), Nxm(<<1, 16, 8>>, Pat("P", 8, 1), Fill(8, 255)),
+             Nxm(U2, Pat("P", 6, 1), <<>>), Nxm(<<0, 1, 6>>, <<1, 0, 0, 0, 0, 0>>, Fill(6, 255)),
+             Nxm(U3, <<9>>, <<255>>)>>
+PeerPrefix(n) == [i \in 1..n |-> NSh(PeerMix[i])]
+PatchBytes(w, pos, bs) == [i \in 1..Len(w) |-> IF i - 1 >= pos /\ i - 1 < pos + Len(bs) THEN bs[i - pos] ELSE w[i]]
+\* a structure carrying match m at byte offset pos, with the nw_src / nw_dst counters sc / dc forced (m has both
+\* addresses wildcarded) and junk under the wildcarded in_port
+NoisyMatch(k, pos, sv, m, sc, dc, junk) ==
+  LET w0 == Wire(sv)
+      w1 == PatchBytes(w0, pos, BE(WildWord(m) - 32 * 256 - 32 * 16384 + sc * 256 + dc * 16384, 4))
+      w2 == IF junk THEN PatchBytes(w1, pos + 4, <<171, 205>>) ELSE w1
+  IN R(k \o "/recv-match/" \o ToString(sc) \o "-" \o ToString(dc) \o (IF junk THEN "+junk" ELSE ""), k, w2, FALSE)
+NoAddr == SV("match", WildSet(WithBits(ExactTCP, 0, 0), {"in_port"}))
+MatchPos == [match |-> 0, flow_mod |-> 8, flow_removed |-> 8, sreq_flow |-> 12, sreq_aggregate |-> 12, srep_flow |-> 16]
+Holder(k, m) == IF k = "match" THEN m
+                ELSE IF k = "srep_flow" THEN Build("P", Sl(k, <<FSh(m, TwoActs)>>))
+                ELSE Build("P", Sh(k, 0, IF k = "flow_mod" THEN TwoActs ELSE <<>>, m))
+OutRaw(p, ml) == SV("a_output", [port |-> p, max_len |-> ml])
+Received(B) ==
+  GoodR({RW("nxmatch/recv-entry", SV("nxmatch", [match |-> <<e>>])) : e \in PeerEntries(0)}
+        \cup UNION {{RW("nxmatch/recv-mix/" \o ToString(n), Build("P", Sl("nxmatch", PeerPrefix(n)))),
+                     RW("nx_flow_mod/recv-mix/" \o ToString(n), Build("P", Sl("nx_flow_mod", PeerPrefix(n) \o TwoActs))),
+                     RW("nxt_packet_in/recv-mix/" \o ToString(n), FixNX(Build("P", Sh("nxt_packet_in", n, PeerPrefix(n), AllWild))))} :
+                      n \in 1..7}
+        \* operands naming a field the library has no class for (it makes one up and must keep the header)
+        \cup {RW("nxa_reg_load/recv-unknown", [FixNX(Build("P", S0("nxa_reg_load"))) EXCEPT !.f.dst = NxHdr(U1)]),
+              RW("nxa_reg_move/recv-unknown", [FixNX(Build("P", S0("nxa_reg_move"))) EXCEPT !.f.src = NxHdr(U1), !.f.dst = NxHdr(U2)]),
+              RW("nxa_output_reg/recv-unknown", [FixNX(Build("P", S0("nxa_output_reg"))) EXCEPT !.f.reg = NxHdr(U3)]),
+              RW("nxa_bundle_load/recv-unknown", [FixNX(Build("P", Sl("nxa_bundle_load", Rep(S0("u16"), 2)))) EXCEPT !.f.dst = NxHdr(U1)]),
+              RW("nxa_learn/recv-unknown", Build("P", Sl("nxa_learn",
+                   <<MSh(Fms(0, 0, 32, FieldRef(U1, 0), FieldRef(U1, 0))), MSh(Fms(0, 1, 8, FieldRef(U3, 0), FieldRef(<<1, 2, 4>>, 8))),
+                     MSh(Fms(1, 1, 48, Pat("P", 6, 1), FieldRef(U2, 0)))>>)))}
+        \* wildcard counters above 32 and junk under a wildcard: read as /0 and as nothing
+        \cup {NoisyMatch(k, MatchPos[k], Holder(k, NoAddr), NoAddr, sc, dc, j) :
+                k \in DOMAIN MatchPos, sc \in B, dc \in B, j \in BOOLEAN}
+        \* max_len of an output to a port other than the controller: kept by the decoder, zeroed by pack()
+        \cup {R("actions/recv-output/" \o c, "actions", Wire(SV("actions", [actions |-> <<OutRaw(Pat(c, 2, 3), Pat("M", 2, 1))>>])), FALSE) :
+                c \in {"Z", "P", "M"}}
+        \cup {R("flow_mod/recv-output", "flow_mod",
+                Wire([Build("P", DefShape("flow_mod")) EXCEPT !.f.actions = <<OutRaw(<<0, 1>>, <<255, 255>>), OutRaw(CtrlPort, <<0, 128>>)>>]), FALSE),
+              R("packet_out/recv-output", "packet_out",
+                Wire([Build("M", DefShape("packet_out")) EXCEPT !.f.actions = <<OutRaw(<<255, 251>>, <<0, 64>>)>>]), FALSE)}
+        \* a HELLO with a body
+        \cup {R("hello/recv-body/" \o ToString(n), "hello", Wire(Build("P", Sn("hello_ext", n))), FALSE) : n \in {1, 8, 100}})
 
 (* (lazy): TLC evaluates every zero-arity constant definition of the modules   *)
 (* it loads when it starts; the dummy parameter keeps the big families from    *)
